@@ -34,9 +34,33 @@ def gen_probe(rng, fn, table, allow_overlay=False):
             "kind": kind}
 
 
+def gen_genrace(rng, tier, table):
+    """A generator object outlives the code variant it was created from: one thread creates it while
+    a probe is active on the generator function, the variant changes (a probe of another thread
+    comes or goes) before its first step."""
+    threads = []
+    nthreads = rng.choice([2, 2, 3])
+    for t in range(nthreads):
+        rounds = []
+        for _ in range(rng.choice([1, 2, 2, 3])):
+            probe = gen_probe(rng, "genloop", table) if rng.random() < 0.8 else None
+            calls = [{"op": "call", "fn": "genloop", "nargs": 1, "tape": gen_tape(rng, 4), "faults": {}}
+                     for _ in range(rng.randint(1, 3))]
+            rounds.append({"probe": probe, "calls": calls})
+        threads.append({"rounds": rounds})
+    sched = {"seed": rng.randrange(1 << 30), "bound": 3 if tier == "quick" else 5, "first": rng.randrange(nthreads),
+             "strategy": "targeted", "p": rng.choice([0.0, 0.0, 0.01]),
+             "targets": [{"fn": "gen_created", "nth": rng.choice([1, 1, 2, 3, 4])}]}
+    if rng.random() < 0.4:
+        sched["targets"].append({"fn": rng.choice(["push", "pop", "_apply"]), "nth": int(1.5 ** rng.uniform(0, 10))})
+    return {"prog": "forms", "threads": threads, "sched": sched, "ops": [], "setup_tool": []}
+
+
 def gen(rng, tier, quarantine=()):
     prog, fns = fn_table("forms")
     table = dict(fns)
+    if rng.random() < 0.06:
+        return gen_genrace(rng, tier, table)
     shared = rng.sample(sorted(FNS), rng.choice([1, 1, 2]))
     if rng.random() < 0.3:
         shared = ["callsother", rng.choice(["plain", "aug"])]
@@ -120,6 +144,11 @@ def gen(rng, tier, quarantine=()):
                 tg["nth"] = rng.choice([1, 1, 2])  # between the creation of a generator and its first step
         if "genloop" in shared and rng.random() < 0.5:
             sched["targets"][0] = {"fn": "gen_created", "nth": rng.choice([1, 1, 2])}
+    if "genloop" in shared and sched.get("strategy") != "targeted" and rng.random() < 0.4:
+        # a generator object exists before any of its body has run: the window between its creation
+        # and its first step is one statement wide, random pre-emption hardly ever lands there
+        sched = {"seed": sched["seed"], "bound": bound, "first": sched["first"], "strategy": "targeted",
+                 "targets": [{"fn": "gen_created", "nth": rng.choice([1, 1, 2, 3])}], "p": rng.choice([0.0, 0.0, 0.01])}
     return {"prog": "forms", "threads": threads, "sched": sched, "ops": [], "setup_tool": sorted(setup_tool)}
 
 
